@@ -226,7 +226,9 @@ let run_c03 path =
          let stream = bytes_of_hex (kv f "stream") in
          (* frames only: any frame decodes (content was checked by the harness against what was sent) *)
          let any_decode _ _ = Some Packet.Pingreq in
-         let a = Stream.dec_all Stream.detect_impl any_decode (n_of_int 0) [stream] Stream.SEof in
+         (* the chunks are the carrier writes as they were made *)
+         let chunks = if kv f "cuts" = "" then [stream] else cut stream (parse_sizes (kv f "cuts")) in
+         let a = Stream.dec_all Stream.detect_impl any_decode (n_of_int 0) chunks Stream.SEof in
          let m_frames = L.length a.Stream.a_frames in
          let consumed = L.fold_left (fun s (fr, _) -> s + L.length fr) 0 a.Stream.a_frames in
          let m_partial = L.length stream - consumed in
